@@ -26,6 +26,8 @@ def main():
         if c.get("thorough", True):
             ent["thorough_cmd"] = "./check %s --tier thorough" % pid
         checks.append(ent)
+    for e in t.ENGINES:
+        e["serves_properties"] = sorted(t.CHECKS)
     man = dict(version=1, setup_cmd=t.SETUP, hooks=t.HOOKS, engines=t.ENGINES, checks=checks, notes=t.NOTES,
                not_applicable=[dict(property_id=k, reason=v) for k, v in sorted(t.NOT_APPLICABLE.items())])
     json.dump(man, open(os.path.join(HERE, "MANIFEST.json"), "w"), indent=1)
